@@ -276,6 +276,29 @@ def run_jws_sig(ctx):
                                        "_why": a["_why"] + ", token on stdin", "_nofmt": True}))
         else:
             second.append(("cli.run", {"argv": ["jws", "ver", "-i", text.strip(), "-a", "-O", "-"] + kargs, "files": fs, "_why": a["_why"], "_pay": a["_pay"]}))
+    # adding a signature to a token that already carries one, in every spelling of the input token
+    first = ctx.real([("jws.sig", {"jws": {"payload": G.b64u(pay)}, "sig": {"protected": {"alg": "HS256"}}, "jwk": pool["oct-32"]})])[0]
+    if first.get("ok"):
+        t1 = first["jws"]
+        for flabel, iargv, files, stdin in input_forms(js(t1), compact_of(t1), rng):
+            for k2, tmpl in (("EC-P256", None), ("oct-64", {"protected": {"alg": "HS512"}}), ("RSA-2048", {"header": {"kid": "second"}})):
+                fs = dict(files, **{"k2.jwk": hx(js(pool[k2]))})
+                argv = ["jws", "sig"] + iargv + (["-s", js(tmpl)] if tmpl else []) + ["-k", "k2.jwk"]
+                x = {"argv": argv, "files": fs, "_why": "second signature (%s) added to a token given as %s" % (k2, flabel), "_k2": k2}
+                if stdin is not None:
+                    x["stdin"] = stdin
+                rr = ctx.real([("cli.run", strip(x))])[0]
+                ctx.evaluations += 1
+                out = tok_of_text(parse_out(rr, None) or "") if rr.get("status") == 0 else None
+                if out is None or not isinstance(out.get("signatures"), list) or len(out["signatures"]) != 2:
+                    ctx.pfails.append(("cli:jws-sig:second", "%s: status %s, output %r" % (x["_why"], rr.get("status"), (parse_out(rr, None) or "")[:200]), "cli.run", strip(x), rr))
+                    continue
+                vs = ctx.real([("jws.ver", {"jws": out, "jwk": pool["oct-32"]}), ("jws.ver", {"jws": out, "jwk": pool[k2]}),
+                               ("jws.ver", {"jws": out, "jwk": [pool["oct-32"], pool[k2]], "all": True})])
+                if not all(v.get("r") for v in vs):
+                    ctx.pfails.append(("cli:jws-sig:second", "%s: the result does not verify under (first key, second key, both): %s :: %s" % (
+                        x["_why"], [bool(v.get("r")) for v in vs], js(out)[:300]), "cli.run", strip(x), rr))
+
     def p2(a, real):
         if real.get("status") != 0:
             return ("cli:jws-sig:not-accepted", "a token produced by jose jws sig is refused by jose jws ver (%s): %s" % (a["_why"], js(a["argv"])[:300]))
